@@ -31,7 +31,7 @@ type boolCase struct {
 	msgs    []string
 }
 
-var oracleOnlyRe = regexp.MustCompile(`\b(w\.g|fa\[|mc|mc2)\b|\bfa\[`)
+var oracleOnlyRe = regexp.MustCompile(`\b(mc|mc2)\b|\bfa\[`)
 
 var simplifyRe = regexp.MustCompile("^can simplify `(.*)` to `(.*)`$")
 
@@ -47,6 +47,7 @@ func Run(tier string, seed int64, outDir string) *common.Meta {
 	runUnlambdaTie(meta, outDir)
 	runSynthDiff(meta, outDir)
 	runGenericBool(meta, seed, outDir)
+	runPrimTie(meta, outDir)
 	meta.Rule = "distinct_nontrivial = number of distinct generated expressions/programs on which the real checker emitted at least one diagnostic (each compared with the model's diagnostic text in Coq and executed differentially)"
 	return meta
 }
